@@ -299,3 +299,149 @@ impl<'s> DocGen<'s> {
 pub fn parse_doc(text: &str) -> Option<q::Document> {
     graphql_tools::parser::parse_query::<String>(text).ok().map(|d| d.into_static())
 }
+
+// ---------------------------------------------------------------- random well-formed schemas
+fn wrap(rng: &mut Rng, base: &str, depth: usize) -> String {
+    let mut t = base.to_string();
+    for _ in 0..depth {
+        match rng.below(3) { 0 => { if !t.ends_with('!') { t.push('!'); } } 1 => { t = format!("[{}]", t); } _ => {} }
+    }
+    t
+}
+
+fn simple_default(rng: &mut Rng, ty: &str, enums: &[(String, Vec<String>)]) -> Option<String> {
+    // literal for a (possibly wrapped) built-in scalar / enum type; None for anything else
+    let t = ty.trim_end_matches('!');
+    if t.starts_with('[') {
+        let inner = &t[1..t.len() - 1];
+        let n = rng.below(3);
+        let mut items = vec![];
+        for _ in 0..n { items.push(simple_default(rng, inner, enums)?); }
+        return Some(format!("[{}]", items.join(", ")));
+    }
+    match t {
+        "Int" => Some((*rng.pick(&["0", "1", "-3"])).to_string()),
+        "Float" => Some((*rng.pick(&["1.5", "2"])).to_string()),
+        "String" => Some("\"d\"".to_string()),
+        "Boolean" => Some((*rng.pick(&["true", "false"])).to_string()),
+        "ID" => Some("\"i\"".to_string()),
+        _ => enums.iter().find(|e| e.0 == t).map(|e| rng.pick(&e.1).clone()),
+    }
+}
+
+/// A random schema that is self-contained and well-formed by construction.
+pub fn random_schema(rng: &mut Rng) -> String {
+    let mut out = String::from(crate::schemas::PRELUDE);
+    let mut enums: Vec<(String, Vec<String>)> = vec![];
+    for i in 0..rng.range(1, 2) {
+        let vals: Vec<String> = (0..rng.range(2, 3)).map(|j| format!("V{}{}", i, j)).collect();
+        out.push_str(&format!("enum E{} {{ {} }}\n", i, vals.join(" ")));
+        enums.push((format!("E{}", i), vals));
+    }
+    let mut input_base: Vec<String> = vec!["Int".into(), "Float".into(), "String".into(), "Boolean".into(), "ID".into()];
+    input_base.extend(enums.iter().map(|e| e.0.clone()));
+    if rng.pct(50) { out.push_str("scalar Custom\n"); input_base.push("Custom".into()); }
+    let n_inputs = rng.range(1, 3);
+    for i in 0..n_inputs {
+        let mut fields = vec![];
+        for j in 0..rng.range(1, 4) {
+            let base = rng.pick(&input_base).clone();
+            let mut ty = { let d = rng.below(3); wrap(rng, &base, d) };
+            // no required self-reference cycles: input objects only reference earlier ones (plus nullable self)
+            if base.starts_with("In") && base == format!("In{}", i) { ty = base.clone(); }
+            let d = if rng.pct(35) { simple_default(rng, &ty, &enums).map(|d| format!(" = {}", d)).unwrap_or_default() } else { String::new() };
+            fields.push(format!("f{}: {}{}", j, ty, d));
+        }
+        out.push_str(&format!("input In{} {{ {} }}\n", i, fields.join(" ")));
+        input_base.push(format!("In{}", i));
+    }
+    let gen_args = |rng: &mut Rng, input_base: &Vec<String>, enums: &Vec<(String, Vec<String>)>| -> String {
+        if !rng.pct(45) { return String::new(); }
+        let mut a = vec![];
+        for j in 0..rng.range(1, 3) {
+            let base = rng.pick(input_base).clone();
+            let ty = { let d = rng.below(3); wrap(rng, &base, d) };
+            let d = if rng.pct(35) { simple_default(rng, &ty, enums).map(|d| format!(" = {}", d)).unwrap_or_default() } else { String::new() };
+            a.push(format!("a{}: {}{}", j, ty, d));
+        }
+        format!("({})", a.join(", "))
+    };
+    // interfaces: each implements a down-closed set of earlier ones and repeats their fields
+    let n_if = rng.below(4);
+    let mut iface_impl: Vec<Vec<usize>> = vec![];
+    let mut iface_fields: Vec<Vec<String>> = vec![];
+    let n_obj = rng.range(2, 5);
+    let mut out_base: Vec<String> = vec!["Int".into(), "String".into(), "Boolean".into(), "ID".into(), "Float".into()];
+    out_base.extend(enums.iter().map(|e| e.0.clone()));
+    for i in 0..n_if { out_base.push(format!("I{}", i)); }
+    for i in 0..n_obj { out_base.push(format!("O{}", i)); }
+    let n_un = rng.below(3);
+    for i in 0..n_un { out_base.push(format!("U{}", i)); }
+    let mut fcount = 0;
+    for i in 0..n_if {
+        let mut imp: Vec<usize> = vec![];
+        for j in 0..i { if rng.pct(40) { for k in &iface_impl[j] { if !imp.contains(k) { imp.push(*k); } } if !imp.contains(&j) { imp.push(j); } } }
+        imp.sort();
+        let mut fields: Vec<String> = vec![];
+        for j in &imp { for f in &iface_fields[*j] { if !fields.iter().any(|g: &String| g.split(|c| c == '(' || c == ':').next() == f.split(|c| c == '(' || c == ':').next()) { fields.push(f.clone()); } } }
+        for _ in 0..rng.range(1, 2) {
+            let base = rng.pick(&out_base).clone();
+            let ty = { let d = rng.below(3); wrap(rng, &base, d) };
+            fields.push(format!("g{}{}: {}", fcount, gen_args(rng, &input_base, &enums), ty));
+            fcount += 1;
+        }
+        let impl_s = if imp.is_empty() { String::new() } else { format!(" implements {}", imp.iter().map(|j| format!("I{}", j)).collect::<Vec<_>>().join(" & ")) };
+        out.push_str(&format!("interface I{}{} {{ {} }}\n", i, impl_s, fields.join(" ")));
+        iface_impl.push(imp);
+        iface_fields.push(fields);
+    }
+    for i in 0..n_obj {
+        let mut imp: Vec<usize> = vec![];
+        for j in 0..n_if { if rng.pct(35) { for k in &iface_impl[j] { if !imp.contains(k) { imp.push(*k); } } if !imp.contains(&j) { imp.push(j); } } }
+        imp.sort();
+        let mut fields: Vec<String> = vec![];
+        for j in &imp { for f in &iface_fields[*j] { if !fields.iter().any(|g: &String| g.split(|c| c == '(' || c == ':').next() == f.split(|c| c == '(' || c == ':').next()) { fields.push(f.clone()); } } }
+        for _ in 0..rng.range(1, 3) {
+            let base = rng.pick(&out_base).clone();
+            let ty = { let d = rng.below(3); wrap(rng, &base, d) };
+            fields.push(format!("h{}{}: {}", fcount, gen_args(rng, &input_base, &enums), ty));
+            fcount += 1;
+        }
+        if rng.pct(50) { fields.push("name: String".into()); }
+        let impl_s = if imp.is_empty() { String::new() } else { format!(" implements {}", imp.iter().map(|j| format!("I{}", j)).collect::<Vec<_>>().join(" & ")) };
+        out.push_str(&format!("type O{}{} {{ {} }}\n", i, impl_s, fields.join(" ")));
+    }
+    for i in 0..n_un {
+        let mut members: Vec<String> = (0..n_obj).filter(|_| rng.pct(50)).map(|j| format!("O{}", j)).collect();
+        if members.is_empty() { members.push("O0".into()); }
+        out.push_str(&format!("union U{} = {}\n", i, members.join(" | ")));
+    }
+    let explicit = rng.pct(50);
+    let (qn, mn, sn) = if explicit { ("RootQ", "RootM", "RootS") } else { ("Query", "Mutation", "Subscription") };
+    let mut root_fields = |rng: &mut Rng, n: usize| -> String {
+        let mut fs = vec![];
+        for j in 0..n {
+            let base = rng.pick(&out_base).clone();
+            let ty = { let d = rng.below(3); wrap(rng, &base, d) };
+            fs.push(format!("r{}{}: {}", j, gen_args(rng, &input_base, &enums), ty));
+        }
+        fs.join(" ")
+    };
+    let n_q = rng.range(2, 5);
+    let qf = root_fields(rng, n_q);
+    out.push_str(&format!("type {} {{ {} }}\n", qn, qf));
+    let has_m = rng.pct(60); let has_s = rng.pct(60);
+    if has_m { let f = root_fields(rng, 2); out.push_str(&format!("type {} {{ {} }}\n", mn, f)); }
+    if has_s { let f = root_fields(rng, 2); out.push_str(&format!("type {} {{ {} }}\n", sn, f)); }
+    if explicit {
+        out.push_str(&format!("schema {{ query: {}{}{} }}\n", qn, if has_m { format!(" mutation: {}", mn) } else { String::new() }, if has_s { format!(" subscription: {}", sn) } else { String::new() }));
+    }
+    let locs = ["QUERY", "MUTATION", "SUBSCRIPTION", "FIELD", "FRAGMENT_DEFINITION", "FRAGMENT_SPREAD", "INLINE_FRAGMENT"];
+    for i in 0..rng.range(2, 4) {
+        let mut ls: Vec<&str> = locs.iter().filter(|_| rng.pct(40)).cloned().collect();
+        if ls.is_empty() { ls.push("FIELD"); }
+        if rng.pct(20) { ls.push("OBJECT"); }
+        out.push_str(&format!("directive @d{}{}{} on {}\n", i, gen_args(rng, &input_base, &enums), if rng.pct(40) { " repeatable" } else { "" }, ls.join(" | ")));
+    }
+    out
+}
